@@ -372,6 +372,7 @@ impl SetSpeedTrainSim {
         self.state.speed = self.speed_trace.speed[self.state.i];
         // update offset
         self.state.offset += self.speed_trace.mean(self.state.i) * self.state.dt;
+        self.state.offset_back = self.state.offset - self.state.length;
         // I'm not too familiar with this bit, but I am assuming this is related to finding the way through the network and is not a difference between set speed and speed limit train sim.
         set_link_and_offset(&mut self.state, &self.path_tpc)?;
         // update total distance
